@@ -15,6 +15,8 @@ LEVEL_TEXT["C02"] = (
     "No division by zero in istft: every output sample is a quotient by the guarded weight, which is non-zero for every window, frame list and nseg (0 included: the zero-frame 0/0 was repaired in /repo, commit 4d79298). "
     "Tie: correspondence of the model with the library (ifft, irfft both forms + rejected sizes, iscola outcome incl. hop <= 0, stft frames of all ranges, istft of stft frames AND of arbitrary frames with arbitrary/negative windows): "
     "stft/istft/iscola bit-exact today (tolerance 1e-11 of the line maximum), ifft/irfft <= 8e-13 (tolerance 1e-10; the forward model's chirp phase for prime sizes, see C01). "
+    "Rejected calls (odd n by irfft / IfftPlanR / one-argument irfft / istft, wrong bin or frame counts, overlap >= nwin, empty inputs) are part of the histories the harness runs: the model is a function of the "
+    "arguments alone, so every result the library returns AFTER rejected calls on the same thread goes through the same correspondence and the same bounds, and is compared bit-exactly with a fresh thread. "
     "Measured by the ORACLE in long double (not proved): rounding - ||ifft(fft(x)) - x|| <= 64 n eps ||x||, ifft / irfft vs the long-double inverse (real) DFT <= 32 n eps ||.|| (worst observed 0.11 of the bound), "
     "irfft forms bit-identical, |istft(stft(x))[t] - x[t]| <= 4 eps nfft ||x||_2 A[t] with A[t] = sum_i |win^a| / sum_i win^(a+1) the conditioning of the normalisation (worst observed 0.11 of the bound), all outputs finite."
 )
@@ -34,6 +36,12 @@ PROPS["C02"] = {
             "nfft/2(+1), nfft-3, windows {hann, hamming, blackman, cosine, kaiser(0.5), kaiser(5), rectangular} symmetric and periodic, EVERY overlap 0..nwin-1 accepted by iscola for the method "
             "(6905 pairs thorough), ranges {centered, twosided, onesided} x methods {ola, wola}, 2-3 frame counts per pair (1..3, 4..9, and one covering every window position), "
             "lengths not aligned to the hop, signals {gauss, constant, ramp, sine, impulses at frame boundaries}; default-window overloads; overlap >= nwin rejected; zero frames (signal shorter than the window); "
+            "histories with REJECTED calls: the irfft sweep runs half of its lengths right after irfft / IfftPlanR calls for n+1 and n-1 (three entry points) and a wrong bin count were rejected on the same worker thread "
+            "(the other half before), the ifft sweep applies its plan objects to n+1, n-1 and 0 samples first, the stft grid issues istft(nfft+1), istft(nfft-1), istft(frames one bin too long) and stft(overlap = nwin) "
+            "before a configuration; every history of length <= 3 (thorough 4 at n = 10, 12) over a 14..21-letter alphabet {7 valid entry points at n, n+2, n-2; 10 kinds of rejected call at n+1, n-1, n, 0, -2} "
+            "around base lengths {2, 10, 12, 64} (thorough + {6, 16, 30, 100, 250, 1000, 2048}) that has a valid call after a rejected one, 96 (600) random histories of 32 (60) calls over 1..4 base lengths <= 2048 (8192) "
+            "with 'try n+1, fall back to n' pairs, thorough: 2^16, 2^17, 2 x 46349, 4 x 12345, 98306; each history in a fresh thread, each valid result against the round-trip bound AND bit-exact with the same call in a "
+            "fresh thread, each rejected call must throw; "
             "distinct = distinct protocol lines + distinct oracle configurations (entry point, length, class / stft configuration); non-trivial = all",
     "technique": "Lean 4 proofs over a hand-written generic-scalar model (DFT inversion from root-of-unity orthogonality, even/odd split of the real inverse transform, index-permutation and "
                  "overlap-add algebra) + differential correspondence with the library + long-double inverse-DFT / reconstruction oracle",
